@@ -49,7 +49,11 @@ class C08(Prop):
             c["j"] = rng.randrange(0, C)
             c["k"] = rng.randint(1, C - c["j"])
         if api in ("read_dedisp", "dedisperse", "subband", "blk_dedisp"):
-            c["dm"] = rng.choice((0.0, 0.0, 1.0, 3.0)) if foff < 0 else 0.0
+            # the block paths accept delays of either sign (ascending bands); the streamed ones refuse them
+            c["dm"] = rng.choice((0.0, 0.0, 1.0, 3.0)) if (foff < 0 or api in ("read_dedisp", "blk_dedisp")) else 0.0
+            if api == "read_dedisp" and foff > 0 and c["dm"] > 0:
+                c["s"] = rng.randrange(N // 2, N - 2)       # room for the negative delays before the start
+                c["n"] = rng.randint(2, N - c["s"])
         if api in ("subband",):
             c["nsub"] = rng.choice([k for k in (1, 2, 4) if C % k == 0])
         if api in ("downsample", "blk_down"):
@@ -126,7 +130,8 @@ class C08(Prop):
                 res["out"] = dict(self._hdr(b.header), shape=list(b.data.shape), vals=[float(v) for v in b.data.T.ravel()])
             elif api == "read_dedisp":
                 dl = np.atleast_1d(fil.header.get_dmdelays(case["dm"]))
-                if s + n + int(dl.max()) > N or dl.min() < 0:
+                # delays of either sign (ascending bands give negative ones): only windows leaving the file are skipped
+                if s + n + int(dl.max()) > N or s + int(dl.min()) < 0:
                     return {"skip": True}
                 b = fil.read_dedisp_block(s, n, case["dm"])
                 res["out"] = dict(self._hdr(b.header), shape=list(b.data.shape), blockdm=float(b.dm))
